@@ -200,7 +200,7 @@ func (b *builder) form(depth int) {
 		b.tok(b.symbol())
 		return
 	}
-	k := rapid.IntRange(0, 23).Draw(b.rt, "formk")
+	k := rapid.IntRange(0, 24).Draw(b.rt, "formk")
 	if depth >= 4 && k >= 14 {
 		k %= 14
 	}
@@ -276,6 +276,24 @@ func (b *builder) form(depth int) {
 		} else {
 			b.tok(b.symbol())
 		}
+	case 24:
+		// a dot that is not in the place of a dotted pair: slip reads it as the symbol |.| - (. x), (x . y z), (x .)
+		b.open("(")
+		shape := rapid.IntRange(0, 3).Draw(b.rt, "straydot")
+		if shape != 0 {
+			b.form(depth + 1)
+			b.emit(" ", 'i')
+		}
+		b.emit(".", 'i')
+		if shape != 3 {
+			b.emit(" ", 'i')
+			b.form(depth + 1)
+		}
+		if shape == 1 {
+			b.emit(" ", 'i')
+			b.form(depth + 1)
+		}
+		b.closeParen()
 	default:
 		b.open("#0A")
 		b.depth-- // #0A takes one object, no list: undo the depth of open()
